@@ -1,8 +1,8 @@
-SPECIFICATION Spec
+SPECIFICATION SimSpec
 CONSTANTS
   Record = TRUE
   Works <- WorksS
-  FaultChoices <- FaultsTwo
+  FaultChoices <- FaultsOne
 CONSTRAINT ExportC
 INVARIANT TypeOK
 INVARIANT HolderOnly
@@ -11,4 +11,4 @@ INVARIANT BlockShape
 INVARIANT OnceInOrder
 INVARIANT Released
 INVARIANT FaultsSurface
-CHECK_DEADLOCK TRUE
+CHECK_DEADLOCK FALSE
